@@ -72,7 +72,8 @@ def write_package(case):
             src.append(CLASS_SRC.format(cls=f"Cls_{mi}_{ci}", cid=f"{mi}_{ci}", attrs="\n".join(attrs), fail=bool(c.get("ctor_fail"))))
         if m.get("fail_import"):
             src.append("raise R.ImportBoom('import of module %d fails')" % mi)
-        with open(os.path.join(pkg, f"mod{mi}.py"), "w") as f:
+        fname = f"_mod{mi}.py" if m.get("underscore") else f"mod{mi}.py"  # only __init__ is special
+        with open(os.path.join(pkg, fname), "w") as f:
             f.write("\n".join(src) + "\n")
     return root, name
 
@@ -89,7 +90,7 @@ def decode(code):
     pkg_c, mods_c, fms, sel_c, ops_c, pass_args = code
     case = {"pkg": "missing" if pkg_c == 11 else "implicit" if pkg_c == 10 else "present", "fms": fms, "modules": [], "args": pass_args}
     for classes_c, imp in mods_c:
-        m = {"classes": [], "fail_import": imp == 9}
+        m = {"classes": [], "fail_import": imp == 9, "underscore": imp in (7, 8)}
         for kind_c, name_c, dis_c, def_c, ctor_c in classes_c:
             c = {"kind": "unrelated" if kind_c >= 8 else "mode"}
             if c["kind"] == "mode":
